@@ -11,19 +11,21 @@ Inductive c12case :=
 | CCue (id : Z) (s d u c : Z) (oclass : Z) (ocues : list ocue)       (* direct call of calcCueItvls; class 0 = ok, 3 = panic *)
 | CTtml (id : Z) (ms : Z) (o : Z * Z * Z * Z)                         (* direct call of msToTTMLTime, fields parsed from the string *)
 | CRep (id : Z) (t ts : Z) (expect_exact : bool) (o : Z)             (* direct call of rep2SubsTime *)
-| CScale (id : Z) (oldTS newTS : Z) (expect_exact : bool) (inp outp : list (option Z * Z * Z)) (* changeTimelineTimescale *)
+| CScale (id : Z) (boundaries : bool) (oldTS newTS : Z) (expect_exact : bool) (inp outp : list (option Z * Z * Z))
+    (* changeTimelineTimescale; [boundaries] = the source converts every segment boundary on its own
+       (repair C12-timeline-timescale-boundaries), read from livempd.go of the tree under test *)
 | CSeg (id : Z) (wvtt : bool) (r : refseg) (reqTime : option Z) (startS cueDur : Z)
        (ostatus onr otime odur : Z) (ocues : list ocue) (osamples : list osample)
     (* served stpp / wvtt segment; [r] = the served reference video segment; [reqTime] = Some ms for a
        $Time$ request (None: $Number$) *)
 | CTmpl (id : Z) (vdur vts : Z) (o : Z)                               (* SegmentTemplate@duration of the subtitle AdaptationSet *)
-| CMpdTl (id : Z) (vts : Z) (expect_exact : bool) (vid sub : list (option Z * Z * Z))  (* SegmentTimeline of video and subtitle AdaptationSet *)
+| CMpdTl (id : Z) (boundaries : bool) (vts : Z) (expect_exact : bool) (vid sub : list (option Z * Z * Z))  (* SegmentTimeline of video and subtitle AdaptationSet *)
 | CCfg (id : Z) (cueDur region : Z) (ostatus : Z).                    (* timesubsdur / timesubsreg accepted or 400 *)
 
 Definition c_id (c : c12case) : Z :=
   match c with
-  | CCue id _ _ _ _ _ _ | CTtml id _ _ | CRep id _ _ _ _ | CScale id _ _ _ _ _
-  | CSeg id _ _ _ _ _ _ _ _ _ _ _ | CTmpl id _ _ _ | CMpdTl id _ _ _ _ | CCfg id _ _ _ => id
+  | CCue id _ _ _ _ _ _ | CTtml id _ _ | CRep id _ _ _ _ | CScale id _ _ _ _ _ _
+  | CSeg id _ _ _ _ _ _ _ _ _ _ _ | CTmpl id _ _ _ | CMpdTl id _ _ _ _ _ | CCfg id _ _ _ => id
   end.
 
 Definition cue_obs (c : cue) : ocue := (c_start c, c_end c, c_utc c).
@@ -59,7 +61,11 @@ Definition case_ok (c : c12case) : bool :=
     (h =? h') && (m =? m') && (s =? s') && (f =? f')
   | CRep _ t ts ex o =>
     (rep2SubsTime t ts =? o) && (negb ex || (rep2SubsTime_exact t ts =? o))
-  | CScale _ oldTS newTS ex inp outp =>
+  | CScale _ bnd oldTS newTS ex inp outp =>
+    if bnd then
+      list_eqb entry_eqb (map sentry_obs (changeTimelineTimescaleB oldTS newTS (map sentry_of inp))) outp
+      && (negb ex || list_eqb entry_eqb (map sentry_obs (rle (map (conv (scale_exact oldTS newTS)) (segments_from true 0 (map sentry_of inp))))) outp)
+    else
     list_eqb entry_eqb (map sentry_obs (changeTimelineTimescale oldTS newTS (map sentry_of inp))) outp
     && (negb ex || list_eqb entry_eqb (entries_exact oldTS newTS inp) outp)
   | CSeg _ wvtt r reqTime startS cueDur ostatus onr otime odur ocues osamples =>
@@ -77,7 +83,11 @@ Definition case_ok (c : c12case) : bool :=
     end
   | CTmpl _ vdur vts o =>
     match subs_template_duration vdur vts with Ok x => x =? o | _ => false end
-  | CMpdTl _ vts ex vid sub =>
+  | CMpdTl _ bnd vts ex vid sub =>
+    if bnd then
+      list_eqb entry_eqb (map sentry_obs (changeTimelineTimescaleB vts 1000 (map sentry_of vid))) sub
+      && (negb ex || list_eqb entry_eqb (map sentry_obs (rle (map (conv (scale_exact vts 1000)) (segments_from true 0 (map sentry_of vid))))) sub)
+    else
     list_eqb entry_eqb (map sentry_obs (changeTimelineTimescale vts 1000 (map sentry_of vid))) sub
     && (negb ex || list_eqb entry_eqb (entries_exact vts 1000 vid) sub)
   | CCfg _ cueDur region ostatus => cfg_timesubs_status cueDur region =? ostatus
